@@ -1386,6 +1386,9 @@ func main() {
 		}
 	}
 	phase("ccitt code storms")
+	// multi-scan formats: the pass counter against its model, thousands of tiny scans under the watchdog
+	h.progCases()
+	phase("progressive scan scripts")
 	// headers whose claimed geometry straddles the stream budget, for every component layout
 	h.headerSweep()
 	phase("header sweep")
